@@ -33,13 +33,18 @@ def op_tok(op):
     return "S:%s:%s" % ("b" if op[1] else "n", cases)
 
 
+# which variant of z_chan.go the Lean model mirrors in this run ("current": without the hand-off counter recvseq;
+# "fixed": with fixes/C10-1.diff).  Detected from the real code's behaviour on the two witness schedules (run()).
+VARIANT = ["current"]
+
+
 def cfg_lines(cfg):
     caps, progs = cfg
-    return ["reset"] + ["chan %d" % c for c in caps] + [("thread " + " ".join(op_tok(o) for o in p)).strip() for p in progs]
+    return ["reset", "variant " + VARIANT[0]] + ["chan %d" % c for c in caps] + [("thread " + " ".join(op_tok(o) for o in p)).strip() for p in progs]
 
 
 def cfg_str(cfg):
-    return " | ".join(cfg_lines(cfg)[1:])
+    return " | ".join(cfg_lines(cfg)[2:])
 
 
 # ------------------------------------------------------------------ Go reference semantics (the specification)
@@ -601,6 +606,36 @@ def build_real(ctx):
     return native.make_native(ctx, RT_FILES, extra, {"main.go": open(os.path.join(H, "main.go.txt")).read()}, name="native-c10")
 
 
+def detect_variant(ctx, real, corpus):
+    """Replay the two witness schedules of Props/C10.lean (stall, loss) on the REAL code and decide which variant of
+    z_chan.go the working tree holds: `current` (no_stuck_pair_counterexample / no_loss_counterexample reproduce) or
+    `fixed` (stall_fixed_facts / loss_fixed_facts reproduce)."""
+    jobs = []
+    for e in corpus[:2]:
+        cfg = (e["caps"], [[parse_tok(t) for t in th.split()] for th in e["threads"]])
+        jobs.append(cfg_lines(cfg) + sched_lines(e["sched"]))
+    ro = run_scripts([real], jobs)
+    w_stall = parse_state(ro[0][-1]) if ro[0] else None
+    w_loss = parse_state(ro[1][-1]) if ro[1] else None
+    ctx.coverage["lean_witnesses_on_real_code"] = {"stall schedule": ro[0][-1:], "loss schedule": ro[1][-1:]}
+    stall_cur = bool(w_stall and not w_stall["R"] and w_stall["W"] == [0, 1] and w_stall["threads"][2] == (True, ("S",))
+                     and w_stall["pend"][0] == [(0, 42)])
+    stall_fix = bool(w_stall and w_stall["threads"][0] == (True, ("R42/1",)) and w_stall["threads"][2] == (True, ("S",)))
+    loss_cur = bool(w_loss and w_loss["threads"][0] == (True, ("R42/0",)))
+    loss_fix = bool(w_loss and w_loss["threads"][0] == (True, ("R42/1",)))
+    if stall_cur and loss_cur:
+        v = "current"
+    elif stall_fix and loss_fix:
+        v = "fixed"
+    else:
+        v = "current"
+        ctx.log("note: the witness schedules show neither the `current` nor the `fixed` behaviour (stall: %s, loss: %s); "
+                "the model runs as `current`, the correspondence decides" % (ro[0][-1:], ro[1][-1:]))
+    ctx.log("z_chan.go variant of the working tree: %s (stall witness: %s; loss witness: %s)" % (
+        v, "reproduces" if stall_cur else "no stall", "reproduces" if loss_cur else "no loss"))
+    return v
+
+
 class Judge:
     def __init__(self, ctx):
         self.ctx = ctx
@@ -633,7 +668,7 @@ class Judge:
                 if v is not None:
                     self.stats["spec_failures"] += 1
                     keys, why = v
-                    replay = {"config": cfg_lines(cfg)[1:], "schedule": sched_lines_[:k + 1], "real_final_state": line, "why": why}
+                    replay = {"config": cfg_lines(cfg)[2:], "schedule": sched_lines_[:k + 1], "real_final_state": line, "why": why}
                     if keys:
                         for kk in keys:
                             self.stats["by_class"][kk] = self.stats["by_class"].get(kk, 0) + 1
@@ -648,7 +683,7 @@ class Judge:
             if len(ctx.violations) >= 25:
                 continue
             ctx.report("safety: " + b + " in " + cfg_str(cfg), b,
-                       {"config": cfg_lines(cfg)[1:], "schedule": sched_lines_, "real": out_lines})
+                       {"config": cfg_lines(cfg)[2:], "schedule": sched_lines_, "real": out_lines})
 
 
 def run_batch(ctx, real, modeld, jobs, judge, label):
@@ -677,6 +712,9 @@ def run(ctx, args):
     modeld = build_driver(ctx, "modeld_c10")
     real = build_real(ctx)
     ctx.log("built: Lean modules, modeld_c10, native copy of z_chan.go under the psync scheduler")
+    corpus = json.load(open(os.path.join(VERIF, "corpus", "C10", "schedules.json")))
+    VARIANT[0] = detect_variant(ctx, real, corpus)
+    ctx.coverage["z_chan_variant"] = VARIANT[0]
     judge = Judge(ctx)
     mismatches = []
     dist = {"configs_exhaustive": 0, "configs_random_schedules": 0, "model_states": 0, "model_transitions": 0,
@@ -704,22 +742,11 @@ def run(ctx, args):
                                    "input_distribution": {}, "samples": [rp]})
 
     # 1. corpus (includes the witnesses of the Lean counterexample theorems)
-    corpus = json.load(open(os.path.join(VERIF, "corpus", "C10", "schedules.json")))
     jobs = []
     for e in corpus:
         cfg = (e["caps"], [[parse_tok(t) for t in th.split()] for th in e["threads"]])
         jobs.append((cfg, cfg_lines(cfg) + sched_lines(e["sched"])))
         count_cfg(cfg)
-    ro = run_scripts([real], [j[1] for j in jobs])
-    # the two Lean witnesses must reproduce on the real code exactly as the theorems state them
-    w_stall = parse_state(ro[0][-1])
-    w_loss = parse_state(ro[1][-1])
-    ctx.coverage["lean_witnesses_on_real_code"] = {
-        "no_stuck_pair_counterexample": ro[0][-1], "no_loss_counterexample": ro[1][-1]}
-    if not (w_stall and not w_stall["R"] and w_stall["W"] == [0, 1] and w_stall["threads"][2] == (True, ("S",)) and w_stall["pend"][0] == [(0, 42)]):
-        ctx.log("note: the real code no longer shows the stall of no_stuck_pair_counterexample:", ro[0][-1])
-    if not (w_loss and w_loss["threads"][0] == (True, ("R42/0",))):
-        ctx.log("note: the real code no longer shows the loss of no_loss_counterexample:", ro[1][-1])
     mismatches += run_batch(ctx, real, modeld, jobs, judge, "corpus")
 
     # 2. exhaustive exploration of small configurations: every transition of the model's state graph is replayed
@@ -783,17 +810,18 @@ def run(ctx, args):
         ctx.broken.append("correspondence real z_chan.go vs Lean model: %d scripts differ" % len(mismatches))
         if not ctx.violations:
             ctx.report_broken("correspondence C10 real-vs-model",
-                              {"config": cfg_lines(cfg)[1:], "schedule": sc, "real": r[-3:], "model": m[-3:], "count": len(mismatches)})
+                              {"config": cfg_lines(cfg)[2:], "schedule": sc, "real": r[-3:], "model": m[-3:], "count": len(mismatches)})
     for name, s in st.items():
         if s != "ok":
             ctx.log("theorem", name, s)
     if any(s != "ok" for s in st.values()) and not ctx.violations:
         ctx.report_broken("Props/C10: " + ", ".join(n for n, s in st.items() if s != "ok"), st)
 
-    ctx.coverage["samples"] = [corpus[0], {"config": cfg_lines(sample_job[0])[1:], "schedule": sample_job[1][len(cfg_lines(sample_job[0])):]} if sample_job else None]
+    ctx.coverage["samples"] = [corpus[0], {"config": cfg_lines(sample_job[0])[2:], "schedule": sample_job[1][len(cfg_lines(sample_job[0])):]} if sample_job else None]
     ctx.coverage["judge"] = judge.stats
     ctx.coverage["trusted_base"] += [
         "hand-written Lean model of z_chan.go tied by differential run: same schedule lines through the real code (native copy, psync scheduler stand-in) and modeld_c10, observable state diffed after every step",
+        "model variant `%s` selected by replaying the two witness schedules on the real code (detect_variant)" % VARIANT[0],
         "psync scheduler stand-in (mutex / condition variable semantics with spurious wake-ups), harness/c10/main.go.txt, the Python reference of Go's channel semantics (go_outcomes) that judges the real final states",
         "exhaustive part = every transition of the MODEL's reachable state graph (deduplicated by model state) replayed on the real code; not every interleaving is replayed separately",
     ]
